@@ -315,7 +315,10 @@ func padFacts(files []*ast.File) []fact {
 
 // ---- 4. synchronisation skeletons ----
 
-func syncSkeleton(files []*ast.File, prefix string, want func(string) bool) []fact {
+// detail adds: channel creation with its buffer size, assignments of nil (a select case switched
+// off), return / continue / break statements, and the condition of every for loop — the parts of
+// a channel pipeline whose change alters which schedules lose work
+func syncSkeleton(files []*ast.File, prefix string, want func(string) bool, detail bool) []fact {
 	var out []fact
 	for _, f := range files {
 		for _, d := range f.Decls {
@@ -338,9 +341,33 @@ func syncSkeleton(files []*ast.File, prefix string, want func(string) bool) []fa
 					items = append(items, "range:"+src(x.X))
 				case *ast.SelectStmt:
 					items = append(items, "select")
+				case *ast.ReturnStmt:
+					if detail {
+						items = append(items, "return")
+					}
+				case *ast.BranchStmt:
+					if detail {
+						items = append(items, x.Tok.String())
+					}
+				case *ast.ForStmt:
+					if detail {
+						c := ""
+						if x.Cond != nil {
+							c = src(x.Cond)
+						}
+						items = append(items, "for:"+c)
+					}
 				case *ast.CallExpr:
 					s := src(x.Fun)
 					switch {
+					case detail && s == "make" && len(x.Args) >= 1:
+						if _, isChan := x.Args[0].(*ast.ChanType); isChan {
+							buf := "unbuffered"
+							if len(x.Args) > 1 {
+								buf = "buffer=" + src(x.Args[1])
+							}
+							items = append(items, "makechan:"+src(x.Args[0])+":"+buf)
+						}
 					case s == "close" && len(x.Args) == 1:
 						items = append(items, "close:"+src(x.Args[0]))
 					case s == "delete" && len(x.Args) == 2:
@@ -355,6 +382,13 @@ func syncSkeleton(files []*ast.File, prefix string, want func(string) bool) []fa
 						items = append(items, "call:"+s)
 					}
 				case *ast.AssignStmt:
+					if detail {
+						for i, r := range x.Rhs {
+							if id, ok := r.(*ast.Ident); ok && id.Name == "nil" && i < len(x.Lhs) {
+								items = append(items, "nil:"+src(x.Lhs[i]))
+							}
+						}
+					}
 					for _, l := range x.Lhs {
 						if ix, ok := l.(*ast.IndexExpr); ok && strings.HasSuffix(src(ix.X), ".m") {
 							items = append(items, "insert:"+src(ix.X))
@@ -414,9 +448,11 @@ func main() {
 
 	emit(&w, "handleSkeleton", syncSkeleton(storage, "", func(n string) bool {
 		return strings.HasPrefix(n, "frameSetMap.") || strings.HasPrefix(n, "fileSeqMap.") || n == "xor64" || n == "Xor64Source.Seed"
-	}))
-	emit(&w, "seqlsSkeleton", syncSkeleton(seqls, "", func(n string) bool { return strings.HasPrefix(n, "workManager.") || n == "main" }))
-	emit(&w, "seqinfoSkeleton", syncSkeleton(seqinfo, "", func(n string) bool { return true }))
+	}, false))
+	emit(&w, "seqlsSkeleton", syncSkeleton(seqls, "", func(n string) bool {
+		return strings.HasPrefix(n, "workManager.") || n == "main" || n == "NewWorkManager"
+	}, true))
+	emit(&w, "seqinfoSkeleton", syncSkeleton(seqinfo, "", func(n string) bool { return n == "main" || n == "parse" }, true))
 
 	w.WriteString("end Gfs.Gen\n")
 	os.Remove(os.Args[2])
